@@ -56,6 +56,17 @@ def job_fn(job):
                 history=[f"argument *{k} set to {v} after compilation" for k, v in (job.get('post_args') or {}).items()])
 
 
+def _hist_class(bb, cap):
+    """the real DDEHistory; with `cap` its pre-allocated capacity is lowered through a subclass attribute so that the
+    buffer grows within a few steps (the growth code itself is the real one)"""
+    if not cap:
+        return bb.DDEHistory
+
+    class SmallHistory(bb.DDEHistory):
+        _INITIAL_CAPACITY = cap
+    return SmallHistory
+
+
 def kernel_job(job):
     """real _solve_euler/_solve_heun + real DDEHistory with an uninterpreted delayed vector field"""
     import builtins
@@ -76,7 +87,8 @@ def kernel_job(job):
         return SArr([Sym(Fs[i](*args)) for i in range(n)])
     y0 = [z3.Real(f"y0_{i}") for i in range(n)]
     y = SArr([Sym(v) for v in y0])
-    hist = bb.DDEHistory(SArr([Sym(v) for v in y0]), t0=0.0)
+    H = _hist_class(bb, job.get('cap'))
+    hist = H(SArr([Sym(v) for v in y0]), t0=0.0)
     if job.get('backend', 'base') == 'torch':
         from .c03 import _kernel
         kern = _kernel('torch', False)
@@ -87,7 +99,20 @@ def kernel_job(job):
     try:
         rec = kern(func, (hist,), float(dt * steps), float(dt), float(dt * store), y, 0)
     except Exception as e:   # noqa
-        out['inconclusive'].append(dict(what=f"kernel raised under symx: {type(e).__name__}: {e}"))
+        # the symbolic run broke down (e.g. a history row that was never written is None in an object array): decide
+        # by the float replay on the real kernel and the real history whether the run is wrong
+        conf = _replay_dde(job, None, None)
+        if conf is not None and conf[1] is not None:
+            tally.obligations += 1
+            tally.sat += 1
+            tally.sat_confirmed += 1
+            out['violations'].append(dict(real_value=conf[0], iterate=conf[1], what=f"fixed-step DDE run ({job.get('backend', 'base')} "
+                                          f"{'heun' if heun else 'euler'}, delay {tau_steps} steps, history capacity "
+                                          f"{job.get('cap', 'default')}): row {conf[2]} is {conf[0]} on the real kernel, the "
+                                          f"method-of-steps iterate is {conf[1]} (the symbolic run raised "
+                                          f"{type(e).__name__})"))
+        else:
+            out['inconclusive'].append(dict(what=f"kernel raised under symx: {type(e).__name__}: {e}"))
         out['tally'] = tally.as_dict()
         return out
     # reference: method of steps with constant pre-history; tau is a multiple of dt so no interpolation is needed
@@ -145,13 +170,13 @@ def _replay_dde(job, k, i):
             import pyrates.backend.torch.torch_backend as tb
             importlib.reload(tb)
             vars(tb).pop('float', None)
-            hist = bb.DDEHistory(y0.copy(), t0=0.0)
+            hist = _hist_class(bb, job.get('cap'))(y0.copy(), t0=0.0)
 
             def f_t(step, y, h, *a):
                 return torch.as_tensor(g(float(step), y.numpy(), np.asarray(h(float(step) * dt - tau))))
             rec = tb.TorchBackend._solve_euler(f_t, (hist,), dt * steps, dt, dt * store, torch.as_tensor(y0.copy()), 0)
         else:
-            hist = bb.DDEHistory(y0.copy(), t0=0.0)
+            hist = _hist_class(bb, job.get('cap'))(y0.copy(), t0=0.0)
 
             def f_b(step, y, h, *a):
                 return g(float(step), y, np.asarray(h(float(step) * dt - tau)))
@@ -169,6 +194,15 @@ def _replay_dde(job, k, i):
             traj.append(cur + dt / 2 * (f1 + f2))
         else:
             traj.append(cur + dt * f1)
+    if k is None:
+        # scan all stored rows (used when the symbolic run of the kernel broke down)
+        R = np.asarray(rec, dtype=float)
+        for k_ in range(R.shape[0]):
+            for i_ in range(n):
+                got, want = float(R[k_, i_]), float(traj[k_ * store][i_])
+                if not abs(got - want) <= 1e-9 * max(1.0, abs(want)):
+                    return got, want, k_
+        return None
     got, want = float(np.asarray(rec)[k, i]), float(traj[k * store][i])
     if abs(got - want) > 1e-9 * max(1.0, abs(want)):
         return got, want
@@ -224,6 +258,9 @@ def run(tier='quick', seed=0, only=None, verbose=False):
                         if not heun:
                             kj.append(dict(key=f"kernel:torch:steps={steps}:tau={tau_steps}:euler:n={n}:store=2", steps=steps,
                                            tau_steps=tau_steps, heun=False, n=n, backend='torch', store=2))
+                    if steps >= 4:      # the history buffer grows during the run (capacity 2 -> 4 -> 8)
+                        kj.append(dict(key=f"kernel:steps={steps}:tau={tau_steps}:{'heun' if heun else 'euler'}:n={n}:capacity=2",
+                                       steps=steps, tau_steps=tau_steps, heun=heun, n=n, cap=2))
                     if not heun:        # the torch backend has its own Euler kernel (and accepts delayed models)
                         kj.append(dict(key=f"kernel:torch:steps={steps}:tau={tau_steps}:euler:n={n}", steps=steps,
                                        tau_steps=tau_steps, heun=False, n=n, backend='torch'))
